@@ -32,6 +32,36 @@ type C04Case struct {
 	Trail string `json:"trail"`
 	Mut   string `json:"mut,omitempty"`
 	Cut   int    `json:"cut,omitempty"`
+	// Prior: a valid line with a related header is parsed right before the case's own line (a parsed header must
+	// not depend on what was parsed before): same header, sequence number that is a decimal prefix / extension
+	// of the case's, neighbouring timestamp
+	Prior string `json:"prior,omitempty"`
+}
+
+func (c C04Case) prior() string {
+	sec, ms, seq := c.Sec, c.Ms, c.Seq
+	switch c.Prior {
+	case "":
+		return ""
+	case "same":
+	case "seq-prefix":
+		seq /= 10
+	case "seq-prefix2":
+		seq /= 100
+	case "seq-longer":
+		if seq < 1<<32/10-1 {
+			seq = seq*10 + 7
+		} else {
+			seq /= 1000
+		}
+	case "ms-next":
+		ms = (ms + 1) % 1000
+	case "sec-next":
+		sec++
+	case "sec-prefix":
+		sec /= 10
+	}
+	return "type=SYSCALL msg=" + kenc.Header(sec, ms, seq) + " a=b"
 }
 
 func (c C04Case) header() string { return kenc.Header(c.Sec, c.Ms, c.Seq) }
@@ -44,7 +74,7 @@ func (c C04Case) text() string {
 
 func (c C04Case) Describe() string {
 	line, _ := c.line()
-	return fmt.Sprintf("mut=%q line=%q", c.Mut, line)
+	return fmt.Sprintf("mut=%q line=%q parsed right before: %q", c.Mut, line, c.prior())
 }
 
 var hostileTokens = []string{
@@ -71,6 +101,9 @@ func genC04(t *rapid.T) C04Case {
 		c.Mut = rapid.SampledFrom([]string{"nomsg", "noparen", "nodot", "nocolon", "noclose", "alpha-sec", "empty-sec",
 			"alpha-ms", "empty-ms", "alpha-seq", "bigseq", "emptyseq", "negseq", "badtype", "trunc"}).Draw(t, "mk")
 		c.Cut = rapid.IntRange(0, 1000).Draw(t, "cut")
+	}
+	if rapid.IntRange(0, 2).Draw(t, "hasprior") == 0 {
+		c.Prior = rapid.SampledFrom([]string{"seq-prefix", "same", "seq-longer", "seq-prefix2", "ms-next", "sec-next", "sec-prefix"}).Draw(t, "prior")
 	}
 	return c
 }
@@ -127,6 +160,12 @@ func (c C04Case) line() (line string, afterMsg string) {
 func propC04(c C04Case) error {
 	line, after := c.line()
 	typ := auparse.AuditMessageType(c.Typ)
+	if p := c.prior(); p != "" {
+		if _, err := auparse.ParseLogLine(p); err != nil {
+			return fmt.Errorf("ParseLogLine(%q): %v", p, err)
+		}
+		hC04.Class("with-related-line-parsed-before")
+	}
 	m, err := auparse.ParseLogLine(line)
 	if (m == nil) == (err == nil) {
 		return fmt.Errorf("ParseLogLine(%q) returned (msg nil=%v, err=%v): exactly one must be nil", line, m == nil, err)
@@ -136,6 +175,9 @@ func propC04(c C04Case) error {
 			return fmt.Errorf("malformed header (%s) accepted by ParseLogLine: %q -> %+v", c.Mut, line, *m)
 		}
 		if after != "" {
+			if p := c.prior(); p != "" {
+				_, _ = auparse.ParseLogLine(p)
+			}
 			m2, err2 := auparse.Parse(typ, after)
 			if err2 == nil || m2 != nil {
 				return fmt.Errorf("malformed header (%s) accepted by Parse: %q", c.Mut, after)
